@@ -1,0 +1,112 @@
+//go:build verif
+
+package iavl
+
+import (
+	"context"
+	"time"
+
+	"github.com/cosmos/iavl/internal/encoding"
+)
+
+// Hooks of the deterministic-simulation harness. The harness installs the
+// functions below; while none is installed every hook is a no-op.
+
+// VerifHooks are the functions a simulated scheduler installs.
+var VerifHooks struct {
+	// Yield is called at points where the running task may be preempted.
+	Yield func(point string)
+	// Spawn announces that the calling task is about to start a goroutine owned by owner.
+	Spawn func(owner any)
+	// Enter is the first statement of such a goroutine, Exit its last (deferred).
+	Enter func(owner any)
+	Exit  func(owner any)
+	// Done tells whether the goroutine owned by owner has exited.
+	Done func(owner any) bool
+	// BlockUntil parks the calling task until cond holds.
+	BlockUntil func(cond func() bool)
+	// Sleep replaces time.Sleep with simulated time; it returns true when it did.
+	Sleep func(d time.Duration) bool
+}
+
+func verifYield(point string) {
+	if f := VerifHooks.Yield; f != nil {
+		f(point)
+	}
+}
+
+func verifSpawn(owner any) {
+	if f := VerifHooks.Spawn; f != nil {
+		f(owner)
+	}
+}
+
+func verifEnter(owner any) {
+	if f := VerifHooks.Enter; f != nil {
+		f(owner)
+	}
+}
+
+func verifExit(owner any) {
+	if f := VerifHooks.Exit; f != nil {
+		f(owner)
+	}
+}
+
+func verifDone(owner any) bool {
+	if f := VerifHooks.Done; f != nil {
+		return f(owner)
+	}
+	return false
+}
+
+func verifBlockUntil(cond func() bool) {
+	if f := VerifHooks.BlockUntil; f != nil {
+		f(cond)
+	}
+}
+
+func verifSleep(d time.Duration) bool {
+	if f := VerifHooks.Sleep; f != nil {
+		return f(d)
+	}
+	return false
+}
+
+// verifStop makes cancellation deterministic under a simulated scheduler: a
+// cancelled exporter stops before its select could pick the send case at random.
+func verifStop(ctx context.Context) bool {
+	return VerifHooks.Yield != nil && ctx.Err() != nil
+}
+
+// VerifLocksFree reports whether none of the tree's locks is held. The
+// simulated scheduler parks a task only where this is true, so that a parked
+// task never blocks the one that runs. The probe is hidden from the race
+// detector: it must not order the tasks' memory accesses.
+func VerifLocksFree(tree *MutableTree) bool {
+	verifRaceDisable()
+	defer verifRaceEnable()
+	ndb := tree.ndb
+	if !ndb.mtx.TryLock() {
+		return false
+	}
+	ndb.mtx.Unlock()
+	if b, ok := ndb.batch.(*BatchWithFlusher); ok && b != nil {
+		if !b.mtx.TryLock() {
+			return false
+		}
+		b.mtx.Unlock()
+	}
+	if !tree.mtx.TryLock() {
+		return false
+	}
+	tree.mtx.Unlock()
+	return true
+}
+
+// Re-exports of the internal decoders of stored bytes (internal packages
+// cannot be imported by the harness).
+
+func VerifDecodeBytes(bz []byte) ([]byte, int, error)   { return encoding.DecodeBytes(bz) }
+func VerifDecodeUvarint(bz []byte) (uint64, int, error) { return encoding.DecodeUvarint(bz) }
+func VerifDecodeVarint(bz []byte) (int64, int, error)   { return encoding.DecodeVarint(bz) }
